@@ -32,7 +32,33 @@ from and the LasData whose record was assigned (las.points = other.points) stay 
 later step: an add / remove on one must leave the others exactly as they were (format, record length, VLR, values), and at the end
 each can still be written and read back (a writer writes the points it was opened for, a reader reads its file again).  Model: a world
 = current LasData + the other live ones (WOp / WNew / WSelect / WCopy); the correspondence compares every live object with the world at
-the end of the history.  (c) Round trips also through LasData.write(path) + laspy.read(path) and through laspy.mmap(path)."""
+the end of the history.  (c) Round trips also through LasData.write(path) + laspy.read(path) and through laspy.mmap(path).
+Round 5 — what belongs to the CALLER between two operations of a history.  (1) The objects it passed: scales / offsets handed over as
+list, tuple, numpy scalars, a fresh float64 array, a view of ONE reusable buffer the caller refills for every dimension, a strided
+view; the element type as string, dtype, (type, count) pair, scalar class, '1type' spelling; names / descriptions as str or np.str_;
+the caller KEEPS the arrays, the ExtraBytesParams objects and the lists it passed to add_extra_dims / remove_extra_dims and later writes
+into the arrays, rebinds or writes every attribute of the params objects, reverses / extends the lists, or re-uses a params object for
+the next addition (all attributes set anew; scales rebound or written in place): nothing observable may change (op `caller`), and the
+re-used object adds exactly the dimension it describes at that moment.  (2) The header's counters: a LasData made with the constructor
+from a header that counts other points than the record has — a slice of the record or a chunk a reader returned (read_points after
+seek, chunk_iterator) with a deep copy of the header of the whole, all the points with the header of a selection, header.point_count
+assigned (bigger / smaller / 0), header.partial_reset() — then the history goes on (fork hows `rewrap`, `set_count`); the number of
+points may not change by an add / remove, the header's point count is compared with the model's counter after every step.  (3) The
+VLR list: between two operations the caller extends it with the list (or only the extra-bytes VLR) of another LasData that has extra
+dimensions of its own (made in memory or read from a file; its extra-bytes VLR first or last, so that it comes to stand NEXT TO the
+own one), with two foreign ones (three in a row), duplicates the own extra-bytes VLR (same object / deep copy, before / after),
+reverses the list, moves the extra-bytes VLR to the front, takes it out, empties the list, adds user records — installed with list methods (extend, append, +=, insert, slice assignment,
+reverse, pop, extract, clear: the next step is then an add or a valid remove) or through the vlrs setter (list, tuple, generator,
+VLRList, las.vlrs += ..., las.header.vlrs = ...: (I3) must hold at once).  After the add / remove that follows: exactly one
+extra-bytes VLR describing the current dimensions, the other records of the caller's list all there in the caller's order; the
+LasData the VLRs were taken from is another live object.  Model: cworld = world + header point count + "list edited in place" flag +
+the caller's params objects (cop: CW / CEditVlrs / CSetCount / CRewrap / CNewParam / CSetParam / CAddParams).  (4) extra dimensions
+named like a standard dimension of ANOTHER point format.
+Two observations of this round on the unchanged laspy: DimensionInfo kept the ExtraBytesParams object's own scales / offsets arrays
+(repaired in 6ccc284; the caller writing into its params object in place, or re-using it in place for the next addition, is now
+judged like every other caller action).  A hand-made laspy.VLR("LASF_Spec", 4, ...) the caller appends is NOT an extra-bytes VLR
+of the header: C08 wants every record the header does not own kept verbatim (C08_sync_keeps_raw), so such lists are outside C13
+and are not generated (see ASSUMPTIONS)."""
 import io
 import struct
 
@@ -43,8 +69,10 @@ from harness import common, lasio
 DRIVER = "c13"
 ASSUMPTIONS = [
     "names an add introduces are new: pairwise different, not a current extra dimension, not a standard dimension name of the format "
-    "(hypothesis ops_okb of the theorems); the generator also avoids the aliases laspy resolves before looking at the record "
-    "(x, y, z, the old laspy names) and the name 'ExtraBytes'",
+    "(hypothesis ops_okb of the theorems: sub-field names of the CURRENT format stay excluded); names of standard dimensions of other "
+    "formats and the aliases laspy resolves before looking at the record (x, y, z, the old laspy names) are generated in systematic "
+    "families (values then assigned through the record's array: las['x'] names the coordinate); the random stream avoids them, and the "
+    "name 'ExtraBytes'",
     "names and descriptions are byte strings of 1..32 / 0..32 bytes without NUL (the generator uses ASCII and some multi-byte UTF-8)",
     "that a LAS file carries the point size, the VLR payloads and the point bytes verbatim is C01/C07/C08; the round trip of this model "
     "starts from (format id, point size, VLR list, record bytes)",
@@ -66,6 +94,19 @@ ASSUMPTIONS = [
     "copy.copy / copy.deepcopy of a LasData are not generated (they raise RecursionError in the unchanged laspy: LasData.__getattr__ "
     "recurses on an instance without _points); nor is las[np.int64(i)] (AttributeError in PackedPointRecord.__getitem__)",
     "scaled values are compared as the stored raw bytes and scales/offsets as binary64 bit patterns; float presentation is C11",
+    "while the caller holds the VLR list (it edited las.vlrs in place and no add / remove has synchronised it since) nothing is claimed "
+    "about the extra-bytes VLR, and the generator lets an add or a valid remove follow at once (hypothesis cops_okb of the theorems: no "
+    "file is written, nothing is selected or copied from a LasData in that state); the vlrs SETTER synchronises, so (I3) is judged right "
+    "after it",
+    "a record with the identity of the extra-bytes VLR that the header does not own — a laspy.VLR('LASF_Spec', 4, ...) the caller made by hand "
+    "and put into the list — is not generated: _sync_extra_bytes_vlr takes out the records of the parsed class ExtraBytesVlr only and C08 "
+    "(C08_sync_keeps_raw) wants every other record kept verbatim; C13 quantifies over add / remove histories, not over forged extra-bytes "
+    "records (the model's is_eb_vlr goes by user id / record id, which coincides with the class on every list that is generated)",
+    "extra-bytes records among the EVLRs are not generated or judged (the model's state is header.vlrs); a LaszipVlr is never put in a list",
+    "a header object shared between a reader and the LasData wrapped around one of its chunks (LasData(reader.header, chunk)) is not "
+    "generated: the chunk routes give the LasData a deep copy of the reader's header",
+    "the header's point count is compared with the model's counter (refreshed by the points setter and by reading a file, carried over "
+    "by laspy.convert, copied by a copy of the header); the other counters of the header (points by return, extrema) are not C13's subject",
     "a record assigned as a whole (las.points = r) either has exactly the extra dimensions of the LasData (bit-identical, or -0.0 for 0.0 "
     "among the offsets) or differs from them in something PointFormat.__eq__ looks at; DimensionInfo.__eq__ compares kind and total bits "
     "but not the element count (uint16 vs 2 x uint8 compare equal: modelled so by fmt_eqv, never generated); scales/offsets are never NaN",
@@ -75,6 +116,9 @@ BASE = ["u1", "i1", "u2", "i2", "u4", "i4", "u8", "i8", "f4", "f8"]     # ASPRS 
 OPAQUE_SIZES = [4, 5, 7, 8, 9, 15, 16, 17, 24, 31, 32, 255]
 OLD_NAMES = {"flag_byte", "return_num", "num_returns", "scan_dir_flag", "edge_flight_line", "pt_src_id", "wave_packet_desc_index",
              "byte_offset_to_waveform_data", "waveform_packet_size", "return_point_waveform_loc"}
+
+
+ALIASES = sorted(OLD_NAMES | {"x", "y", "z"})     # names laspy resolves to a standard dimension before it looks at the record
 
 
 def hx(b):
@@ -423,7 +467,8 @@ def rand_vlrs(rng):
 
 
 SELECT_KINDS = ["slice", "slice", "step", "mask", "list", "array", "int", "empty"]
-FORK_HOWS = ["select", "select", "select", "copy", "share_header", "reader", "reader_twice", "writer"]
+FORK_HOWS = ["select", "select", "select", "copy", "share_header", "reader", "reader_twice", "writer", "rewrap", "rewrap", "set_count"]
+REWRAP_ROUTES = ["slice", "slice", "slice_copy", "chunk", "chunk", "chunk_iter", "smaller_header"]
 ROUNDTRIP_VIAS = ["write", "write", "write", "writer", "writer", "path", "mmap"]
 
 
@@ -484,8 +529,43 @@ def index_object(spec):
     return list(spec["idx"])
 
 
+def rand_rewrap(rng, cur, route=None, whole=False):
+    """LasData(header', points') where header' counts other points than points' has: a slice of the record or a chunk a reader
+    returned, with a copy of the header of the whole; all the points with the header of a selection"""
+    route = route or rng.choice(REWRAP_ROUTES)
+    if cur == 0 and route in ("smaller_header", "chunk_iter"):
+        route = "chunk"
+    op = {"op": "fork", "how": "rewrap", "route": route, "cont": "new"}
+    if route == "smaller_header":
+        op["count"] = rng.randrange(cur)
+        op["index"] = {"kind": "slice", "a": 0, "b": cur, "step": None}
+    elif route == "chunk_iter":
+        size = rng.choice([1, 2, 3, max(1, cur - 1), cur, cur + 1])
+        j = rng.randrange((cur + size - 1) // size)
+        op["chunk"] = size
+        op["index"] = {"kind": "slice", "a": j * size, "b": min(cur, (j + 1) * size), "step": None}
+    else:
+        a_, b_ = sorted((rng.randrange(cur + 1), rng.randrange(cur + 1)))
+        if whole:
+            a_, b_ = 0, cur
+        elif b_ - a_ == cur and cur:
+            b_ -= 1
+        op["index"] = {"kind": "slice", "a": a_, "b": b_, "step": None}
+    return op
+
+
+def rand_set_count(rng, cur, route=None):
+    route = route or rng.choice(["assign", "assign", "assign", "reset"])
+    return {"op": "fork", "how": "set_count", "route": route, "cont": "self",
+            "count": 0 if route == "reset" else rng.choice([0, cur + 1, cur + 7, max(0, cur - 1), 3 * cur + 5, cur + 1000])}
+
+
 def rand_fork(rng, cur, how=None, cont=None, kind=None):
     how = how or rng.choice(FORK_HOWS)
+    if how == "rewrap":
+        return rand_rewrap(rng, cur)
+    if how == "set_count":
+        return rand_set_count(rng, cur)
     op = {"op": "fork", "how": how}
     if how == "select":
         op["index"] = rand_index(rng, cur, kind=kind, bad=rng.random() < 0.08)
@@ -497,6 +577,69 @@ def rand_fork(rng, cur, how=None, cont=None, kind=None):
     else:
         op["cont"] = cont or rng.choice(["new", "self"])
     return op
+
+
+EDIT_FLAVOURS = ["foreign_after", "foreign_after", "foreign_after", "foreign_before", "foreign_eb_only", "two_foreign", "duplicate_own",
+                 "duplicate_own", "reverse", "eb_first", "drop_eb", "users_only", "empty"]
+
+
+def rand_user_vlr(rng):
+    uid = lasio.rand_ascii(rng, rng.choice([1, 8, 16]), [c for c in range(97, 123)])
+    n = rng.choice([0, 1, 3, 192, rng.randrange(100)])
+    return [hx(uid.encode()), rng.choice([0, 4, 7, 65535]), hx(lasio.rand_ascii(rng, rng.choice([0, 5, 32]), [c for c in range(65, 91)]).encode()),
+            hx(bytes(rng.getrandbits(8) for _ in range(n)))]
+
+
+def rand_other_seg(rng, reserved, part="all", ndims=None, eb_first=None):
+    used, dims = set(), []
+    for _ in range(rng.choice([1, 1, 2, 3]) if ndims is None else ndims):
+        d = rand_dim(rng, used, reserved)
+        used.add(bytes.fromhex(d["name"]).decode())
+        dims.append(d)
+    return {"seg": "other", "dims": dims, "users": [rand_user_vlr(rng) for _ in range(rng.choice([0, 1, 1, 2]))] if part == "all" else [],
+            "eb_first": rng.random() < 0.6 if eb_first is None else eb_first, "via": rng.choice(["memory", "memory", "file"]), "part": part}
+
+
+def rand_edit_vlrs(rng, reserved, flavour=None, install=None):
+    """the caller edits las.vlrs between two operations of the history (JSON-able: segments the new list is made of + how it is
+    installed)"""
+    flavour = flavour or rng.choice(EDIT_FLAVOURS)
+    cur = {"seg": "cur"}
+    if flavour == "foreign_after":
+        segs, inst = [cur, rand_other_seg(rng, reserved)], ["extend", "extend", "append", "iadd_inplace", "slice"] + SETTER_INSTALLS
+    elif flavour == "foreign_before":
+        segs, inst = [rand_other_seg(rng, reserved), cur], ["insert_front", "slice", "setter_list", "setter_tuple", "setter_iter", "setter_vlrlist", "header_setter"]
+    elif flavour == "foreign_eb_only":
+        segs, inst = [cur, rand_other_seg(rng, reserved, part="eb")], ["extend", "append", "slice"] + SETTER_INSTALLS
+    elif flavour == "two_foreign":
+        segs = [cur, rand_other_seg(rng, reserved, part="eb"), rand_other_seg(rng, reserved, part=rng.choice(["eb", "all"]), eb_first=True)]
+        inst = ["extend", "append", "iadd_inplace", "slice"] + SETTER_INSTALLS
+    elif flavour == "duplicate_own":
+        form = rng.randrange(4)
+        segs = [[cur, {"seg": "cur_eb"}], [cur, {"seg": "cur_eb_copy"}], [{"seg": "cur_eb_copy"}, cur], [cur, {"seg": "cur_eb_copy"}, {"seg": "cur_eb"}]][form]
+        inst = (["insert_front", "slice"] if form == 2 else ["extend", "append", "slice", "setter_iadd"]) + ["setter_list", "setter_vlrlist", "header_setter"]
+    elif flavour == "reverse":
+        segs, inst = [{"seg": "cur_rev"}], ["reverse", "slice", "setter_list", "setter_iter"]
+    elif flavour == "eb_first":
+        segs, inst = [{"seg": "cur_eb"}, {"seg": "cur_no_eb"}], ["slice", "setter_list", "setter_tuple"]
+    elif flavour == "drop_eb":
+        segs, inst = [{"seg": "cur_no_eb"}], ["pop_eb", "extract_eb", "slice", "setter_list", "header_setter"]
+    elif flavour == "users_only":
+        segs, inst = [cur, {"seg": "user", "vlr": rand_user_vlr(rng)}, {"seg": "user", "vlr": rand_user_vlr(rng)}], ["extend", "append", "setter_iadd", "setter_list"]
+    elif flavour == "empty":
+        segs, inst = [], ["clear", "slice", "setter_list", "setter_tuple", "header_setter"]
+    else:
+        raise ValueError("unknown flavour " + flavour)
+    return {"op": "edit_vlrs", "flavour": flavour, "install": install or rng.choice(inst), "segs": segs}
+
+
+def rand_sync_op(rng, shadow, reserved):
+    """an add or a valid remove: what gives the VLR list back to the header after the caller edited it in place"""
+    if shadow and rng.random() < 0.5:
+        names = rng.sample([d["name"] for d in shadow], rng.choice([1, 1, len(shadow)]))
+        return {"op": "remove", "names": names, "single": len(names) == 1 and rng.random() < 0.5, "as": rng.choice(["list", "tuple", "iter"])}
+    used = {bytes.fromhex(d["name"]).decode() for d in shadow}
+    return {"op": "add", "dims": [rand_dim(rng, used, reserved)], "single": rng.random() < 0.5}
 
 
 def gen_history(rng, reserved, fmt=None, steps=None, npts=None, plan=None, build=None, init=None, sibling=None, sib_ops=None):
@@ -545,9 +688,13 @@ def gen_history(rng, reserved, fmt=None, steps=None, npts=None, plan=None, build
     cur = npts       # whole-record assignments and selections change the number of points
     curfmt, curver = fmt, ver     # conversions change the point format and may raise the version
     reg = None       # what the extra-bytes VLR registers: None = every dimension, k = the first k, "absent" = there is no VLR
-    while len(h["ops"]) < steps:
+    force_sync = False      # the caller edited the VLR list in place: the next operation is an add or a valid remove
+    last_kept = None        # the dimension the caller's last kept ExtraBytesParams object describes
+    while len(h["ops"]) < steps or (force_sync and not queue):
         std_names = list(std_dtype(curfmt).names) + [s.name for subs in dims.COMPOSED_FIELDS[curfmt].values() for s in subs]
-        if queue:
+        if force_sync and not queue:
+            op = rand_sync_op(rng, shadow, reserved)
+        elif queue:
             op = queue.pop(0)(shadow, cur)
             if op is None:
                 continue
@@ -576,6 +723,10 @@ def gen_history(rng, reserved, fmt=None, steps=None, npts=None, plan=None, build
                     continue
             elif k0 < 0.32:
                 op = rand_fork(rng, cur)
+            elif k0 < 0.38:
+                op = rand_edit_vlrs(rng, reserved)
+            elif k0 < 0.42 and last_kept is not None:
+                op = {"op": "caller", "what": rng.choice(CALLER_WHATS)}
             elif k < 0.36 or (not shadow and k < 0.7):
                 dims_ = []
                 for _ in range(rng.choice([1, 1, 1, 2, 3])):
@@ -590,10 +741,18 @@ def gen_history(rng, reserved, fmt=None, steps=None, npts=None, plan=None, build
                     used.add(bytes.fromhex(d["name"]).decode())
                     dims_.append(d)
                 op = {"op": "add", "dims": dims_, "single": len(dims_) == 1 and rng.random() < 0.5}
+                if last_kept is not None and rng.random() < 0.2:
+                    # the caller re-uses the params object it kept from an earlier addition
+                    inplace = (rng.random() < 0.5 and dims_[0]["scale"] is not None and last_kept["scale"] is not None
+                               and len(dims_[0]["scale"][0]) == len(last_kept["scale"][0]))
+                    op = {"op": "add", "dims": dims_[:1], "single": True, "pass": {"reuse": "inplace" if inplace else "rebind", "retain": True}}
+                elif rng.random() < 0.5:
+                    op["pass"] = {"arrays": rng.choice(ARRAY_REPS), "retain": True, "type": rng.choice(TYPE_REPS), "text": rng.choice(["str", "str", "np_str"])}
             elif k < 0.56 and shadow:
                 cnt = rng.choice([1, 1, 2, len(shadow), len(shadow)])
                 names = rng.sample([d["name"] for d in shadow], min(cnt, len(shadow)))
-                op = {"op": "remove", "names": names, "single": len(names) == 1 and rng.random() < 0.5, "as": rng.choice(["list", "tuple", "iter"])}
+                op = {"op": "remove", "names": names, "single": len(names) == 1 and rng.random() < 0.5, "as": rng.choice(["list", "tuple", "iter"]),
+                      "retain": rng.random() < 0.5}
             elif k < 0.71 and shadow:
                 op = assign_op(rng, rng.choice(shadow), cur)
             elif k < 0.76:
@@ -625,10 +784,21 @@ def gen_history(rng, reserved, fmt=None, steps=None, npts=None, plan=None, build
         if op["op"] == "add":
             shadow.extend(op["dims"])
             reg = None
+            force_sync = False
+            if (op.get("pass") or {}).get("retain"):
+                last_kept = op["dims"][-1]
         elif op["op"] == "remove" and remove_is_valid(shadow, op["names"]):
             retired.extend((d["name"], tuple(d["type"])) for d in shadow if d["name"] in op["names"])
             shadow[:] = [d for d in shadow if d["name"] not in op["names"]]
             reg = None
+            force_sync = False
+        elif op["op"] == "edit_vlrs":
+            if op["install"] in INPLACE_INSTALLS:
+                force_sync = True
+            else:
+                reg = None
+        elif op["op"] == "caller" and op["what"] in ("params_rebind", "params_inplace") and last_kept is not None:
+            last_kept = changed_param(last_kept, op["what"])
         elif op["op"] == "set_points" and not op.get("mismatch"):
             cur = op["npts"]
         elif op["op"] == "convert":
@@ -637,7 +807,7 @@ def gen_history(rng, reserved, fmt=None, steps=None, npts=None, plan=None, build
             reg = None
         elif op["op"] == "reread":
             shadow[:], reg = reread_effect(shadow, reg, op["keep"])
-        elif op["op"] == "fork" and op["how"] == "select" and op["cont"] == "new":
+        elif op["op"] == "fork" and op["how"] in ("select", "rewrap") and op["cont"] == "new":
             try:
                 cur = len(resolve_index(op["index"], cur))
             except IndexError:
@@ -721,13 +891,134 @@ def make_las(h, sibling=False):
     return las
 
 
-def mk_param(d):
+ARRAY_REPS = ["ndarray", "ndarray", "list", "tuple", "npscalars", "buffer", "strided"]
+TYPE_REPS = ["str", "str", "dtype", "pair", "class", "one_prefixed"]
+
+
+def new_env():
+    """what the CALLER keeps after its calls: the arrays it passed as scales / offsets, its ExtraBytesParams objects, the lists it
+    passed to add_extra_dims / remove_extra_dims, the LasData whose VLRs it copied"""
+    return {"arrays": [], "params": [], "lists": []}
+
+
+def mk_param(d, how=None, env=None):
+    """the ExtraBytesParams of a dimension; `how` says in which representation the caller hands over scales and offsets (all of
+    them carry the very binary64 numbers) and whether it keeps the objects (env) to re-use or change them later"""
     import laspy
+    how = how or {}
+    rep = how.get("arrays", "ndarray")
+    keep = env is not None and how.get("retain")
     kw = {}
     if d["scale"] is not None:
-        kw = dict(scales=np.array([lasio.bits_f64(b) for b in d["scale"][0]], dtype=np.float64),
-                  offsets=np.array([lasio.bits_f64(b) for b in d["scale"][1]], dtype=np.float64))
-    return laspy.ExtraBytesParams(bytes.fromhex(d["name"]).decode(), type_str(tuple(d["type"])), description=bytes.fromhex(d["desc"]).decode(), **kw)
+        sc = [lasio.bits_f64(b) for b in d["scale"][0]]
+        of = [lasio.bits_f64(b) for b in d["scale"][1]]
+        n = len(sc)
+        if rep == "list":
+            kw = dict(scales=list(sc), offsets=list(of))
+        elif rep == "tuple":
+            kw = dict(scales=tuple(sc), offsets=tuple(of))
+        elif rep == "npscalars":
+            kw = dict(scales=[np.float64(x) for x in sc], offsets=[np.float64(x) for x in of])
+        elif rep == "buffer" and env is not None:
+            # one reusable buffer for the scales and one for the offsets, filled for the dimension that is about to be added
+            if "buf_s" not in env:
+                env["buf_s"], env["buf_o"] = np.zeros(3, dtype=np.float64), np.zeros(3, dtype=np.float64)
+                env["arrays"] += [env["buf_s"], env["buf_o"]]
+            env["buf_s"][:n] = sc
+            env["buf_o"][:n] = of
+            kw = dict(scales=env["buf_s"][:n], offsets=env["buf_o"][:n])
+        elif rep == "strided":
+            big_s, big_o = np.zeros(6, dtype=np.float64), np.zeros(6, dtype=np.float64)
+            big_s[::2][:n] = sc
+            big_o[::2][:n] = of
+            kw = dict(scales=big_s[::2][:n], offsets=big_o[::2][:n])
+            if keep:
+                env["arrays"] += [big_s, big_o]
+        else:
+            kw = dict(scales=np.array(sc, dtype=np.float64), offsets=np.array(of, dtype=np.float64))
+            if keep:
+                env["arrays"] += [kw["scales"], kw["offsets"]]
+    t = tuple(d["type"])
+    ty = type_str(t)
+    trep = how.get("type", "str")
+    if trep == "dtype":
+        ty = np.dtype(ty)
+    elif trep == "pair":                       # (element type, count) as numpy spells a sub-array type
+        base, n = np_base(t)
+        ty = np.dtype((base, (n,))) if (t[0] == "o" or n > 1) else np.dtype(base)
+    elif trep == "class" and t[0] == "s" and type_elems(t) == 1:
+        ty = np.dtype(ty).type              # np.uint8, np.float64 ...
+    elif trep == "one_prefixed" and t[0] == "s" and type_elems(t) == 1:
+        ty = "1" + ty                       # the spelling numpy deprecated, which ExtraBytesParams accepts
+    name, desc = bytes.fromhex(d["name"]).decode(), bytes.fromhex(d["desc"]).decode()
+    if how.get("text") == "np_str":
+        name, desc = np.str_(name), np.str_(desc)
+    p = laspy.ExtraBytesParams(name, ty, description=desc, **kw)
+    if keep:
+        env["params"].append(p)
+    return p
+
+
+def reuse_param(d, how, env):
+    """the caller re-uses the ExtraBytesParams object of its last addition for the next one: every attribute is set anew; the scales
+    and offsets either as new arrays (rebind) or written into the arrays the object already has (inplace)"""
+    p = env["params"][-1]
+    p.name = bytes.fromhex(d["name"]).decode()
+    p.type = np.dtype(type_str(tuple(d["type"])))
+    p.description = bytes.fromhex(d["desc"]).decode()
+    if d["scale"] is None:
+        p.scales = p.offsets = None
+        return p
+    sc = [lasio.bits_f64(b) for b in d["scale"][0]]
+    of = [lasio.bits_f64(b) for b in d["scale"][1]]
+    if how.get("reuse") == "inplace" and p.scales is not None and p.offsets is not None and len(p.scales) == len(sc):
+        p.scales[...] = sc
+        p.offsets[...] = of
+    else:
+        p.scales = np.array(sc, dtype=np.float64)
+        p.offsets = np.array(of, dtype=np.float64)
+    return p
+
+
+CALLER_WHATS = ["arrays", "arrays", "params_rebind", "lists", "params_inplace", "params_inplace"]
+CHANGED_DESC = b"changed by the caller"
+
+
+def changed_param(d, what):
+    """what a params object describing d describes after the caller changed it (apply_caller)"""
+    if what == "params_rebind":
+        return {"name": d["name"] + hx(b"_x"), "type": ["s", 10], "scale": None, "desc": hx(CHANGED_DESC)}
+    if what == "params_inplace" and d["scale"] is not None:
+        n = len(d["scale"][0])
+        return {"name": d["name"], "type": d["type"], "scale": [[lasio.f64bits(3.5)] * n, [lasio.f64bits(-1.25)] * n], "desc": d["desc"]}
+    return d
+
+
+def apply_caller(what, env):
+    """the caller changes objects it owns and has passed to earlier calls"""
+    import laspy
+    if what == "arrays":
+        for a in env["arrays"]:
+            a[...] = 7.25
+    elif what == "params_rebind":
+        for p in env["params"]:
+            p.name = p.name + "_x"
+            p.type = np.dtype("f8")
+            p.description = CHANGED_DESC.decode()
+            p.scales = None
+            p.offsets = None
+    elif what == "params_inplace":
+        for p in env["params"]:
+            if p.scales is not None and p.offsets is not None:
+                p.scales[...] = 3.5
+                p.offsets[...] = -1.25
+    elif what == "lists":
+        for l in env["lists"]:
+            l.reverse()
+            l.append(laspy.ExtraBytesParams("appended_later", "u1") if l and not isinstance(l[0], str) else "appended_later")
+            del l[0]
+    else:
+        raise ValueError("unknown caller action " + what)
 
 
 def build_record(las, op):
@@ -877,27 +1168,40 @@ def typed_values(op, npts):
     return vals.reshape((npts, n)) if (op["type"][0] == "o" or n > 1) else vals
 
 
-def apply_op(las, op):
+def apply_op(las, op, env=None):
     """returns (las, status, aux) — aux: observations the property speaks about that are not part of the resulting state;
-    aux['_witnesses']: (kind, object, role) of every other live object this step leaves behind"""
+    aux['_witnesses']: (kind, object, role) of every other live object this step leaves behind; env: what the caller keeps"""
     import laspy
     import copy
     aux = {}
     wit = aux.setdefault("_witnesses", [])
+    env = env if env is not None else new_env()
     try:
         k = op["op"]
         if k == "add":
-            ps = [mk_param(d) for d in op["dims"]]
+            how = op.get("pass") or {}
+            if how.get("reuse") and env["params"]:
+                ps = [reuse_param(op["dims"][0], how, env)]
+            else:
+                ps = [mk_param(d, how, env) for d in op["dims"]]
             if op.get("single"):
                 las.add_extra_dim(ps[0])
             else:
+                if how.get("retain"):
+                    env["lists"].append(ps)
                 las.add_extra_dims(ps)
         elif k == "remove":
             names = [bytes.fromhex(n).decode() for n in op["names"]]
             if op.get("single"):
                 las.remove_extra_dim(names[0])
             else:
+                if op.get("as") == "list" and op.get("retain"):
+                    env["lists"].append(names)
                 las.remove_extra_dims(names if op.get("as") == "list" else tuple(names) if op.get("as") == "tuple" else (n for n in names))
+        elif k == "caller":
+            apply_caller(op["what"], env)
+        elif k == "edit_vlrs":
+            apply_edit_vlrs(las, op, aux, wit)
         elif k == "assign":
             name = bytes.fromhex(op["name"]).decode()
             arr = las.points.array
@@ -909,8 +1213,8 @@ def apply_op(las, op):
                 sub = arr.dtype.fields[name][0]
                 vals = np.frombuffer(bytes.fromhex(op["raw"]), dtype=sub.base).reshape((len(arr),) + sub.shape)
             dim = las.point_format.dimension_by_name(name)
-            if dim.is_scaled:
-                arr[name] = vals          # stored values; the scaled presentation is C11's subject
+            if dim.is_scaled or name in ALIASES:
+                arr[name] = vals          # stored values; the scaled presentation is C11's subject (las["x"], las["return_num"] ... name standard dimensions)
             else:
                 las[name] = vals
         elif k == "assign_std":
@@ -998,6 +1302,15 @@ def apply_fork(las, op, aux, wit):
     elif how == "writer":
         wit.append(("writer that was given the header", WriterWitness(las), "writer"))
         return las
+    elif how == "set_count":
+        # the header's point count is a public attribute next to the record
+        if op["route"] == "reset":
+            las.header.partial_reset()
+        else:
+            las.header.point_count = op["count"]
+        return las
+    elif how == "rewrap":
+        new, kind = rewrap(las, op), "LasData(header, points) whose header counts other points (" + op["route"] + ")"
     else:
         raise ValueError("unknown fork " + how)
     if op["cont"] == "new":
@@ -1005,6 +1318,148 @@ def apply_fork(las, op, aux, wit):
         return new
     wit.append((kind, new, "new"))
     return las
+
+
+def rewrap(las, op):
+    """a LasData made with the constructor from a header that was NOT made for these points (no update_header): the header's point
+    count and the record disagree, as for every chunk of a file wrapped with the file's header"""
+    import laspy
+    import copy
+    route, spec = op["route"], op["index"]
+    a_, b_, _ = slice(spec["a"], spec["b"], None).indices(len(las.points))
+    b_ = max(a_, b_)
+    if route == "slice":
+        return laspy.LasData(copy.deepcopy(las.header), las.points[a_:b_])
+    if route == "slice_copy":
+        return laspy.LasData(copy.deepcopy(las.header), las.points[a_:b_].copy())
+    if route == "smaller_header":
+        # the header of a selection of the first m points, given all the points
+        return laspy.LasData(copy.deepcopy(las[:op["count"]].header), las.points.copy())
+    data = write_file(las, "write")
+    with laspy.open(io.BytesIO(data)) as reader:
+        hdr = copy.deepcopy(reader.header)
+        if route == "chunk":
+            if a_ and b_ > a_:       # (LasReader.seek refuses the position after the last point; an empty chunk needs no seek)
+                reader.seek(a_)
+            chunk = reader.read_points(b_ - a_)
+        elif route == "chunk_iter":
+            size = op["chunk"]
+            chunk = None
+            for j, c in enumerate(reader.chunk_iterator(size)):
+                if j * size == a_:
+                    chunk = c
+                    break
+            if chunk is None:
+                raise RuntimeError("harness: no chunk starts at " + str(a_))
+        else:
+            raise ValueError("unknown route " + route)
+        return laspy.LasData(hdr, chunk)
+
+
+def is_eb_obj(v):
+    return type(v).__name__ == "ExtraBytesVlr"
+
+
+def other_with_vlrs(las, seg):
+    """another LasData (same version and point format id) that has the extra dimensions seg['dims'] and the user VLRs seg['users'];
+    its extra-bytes VLR comes first or last in its list; made in memory or read from the file it was written to"""
+    import laspy
+    other = laspy.LasData(laspy.LasHeader(version=str(las.header.version), point_format=las.header.point_format.id))
+    users = [laspy.VLR(user_id=bytes.fromhex(u).decode(), record_id=r, description=bytes.fromhex(d).decode(), record_data=bytes.fromhex(p_))
+             for u, r, d, p_ in seg.get("users", [])]
+    if not seg.get("eb_first"):
+        other.vlrs.extend(users)
+    if seg["dims"]:
+        other.add_extra_dims([mk_param(d) for d in seg["dims"]])
+    if seg.get("eb_first"):
+        other.vlrs.extend(users)
+    if seg.get("via") == "file":
+        other = write_read(other, "write")
+    return other
+
+
+INPLACE_INSTALLS = ["extend", "append", "iadd_inplace", "insert_front", "slice", "reverse", "pop_eb", "extract_eb", "clear"]
+SETTER_INSTALLS = ["setter_list", "setter_tuple", "setter_iter", "setter_vlrlist", "setter_iadd", "header_setter"]
+
+
+def apply_edit_vlrs(las, op, aux, wit):
+    """the caller edits the VLR list of the LasData: the new list is made of the records that are there (all, reversed, without /
+    only the extra-bytes VLR, copies), new user records, the list (or the extra-bytes VLR) of another LasData that has extra
+    dimensions of its own; it is installed with list methods (in
+    place) or through the vlrs setter"""
+    import laspy
+    import copy
+    from laspy.vlrs.vlrlist import VLRList
+    cur = list(las.vlrs)
+    new = []
+    for seg in op["segs"]:
+        kind = seg["seg"]
+        if kind == "cur":
+            new += cur
+        elif kind == "cur_rev":
+            new += cur[::-1]
+        elif kind == "cur_no_eb":
+            new += [v for v in cur if not is_eb_obj(v)]
+        elif kind == "cur_eb":
+            new += [v for v in cur if is_eb_obj(v)]
+        elif kind == "cur_eb_copy":
+            new += [copy.deepcopy(v) for v in cur if is_eb_obj(v)]
+        elif kind == "user":
+            u, r, d, p_ = seg["vlr"]
+            new.append(laspy.VLR(user_id=bytes.fromhex(u).decode(), record_id=r, description=bytes.fromhex(d).decode(), record_data=bytes.fromhex(p_)))
+        elif kind == "other":
+            other = other_with_vlrs(las, seg)
+            wit.append(("the LasData whose VLRs were copied", other, "vlr_donor"))
+            new += [v for v in other.vlrs if seg.get("part", "all") == "all" or is_eb_obj(v)]
+        else:
+            raise ValueError("unknown segment " + kind)
+    aux["edit_list"] = [(lasio.vlr_tuple(v), is_eb_obj(v)) for v in new]
+    inst = op["install"]
+    tail = new[len(cur):]
+    if inst in ("extend", "append", "iadd_inplace", "setter_iadd") and not (len(new) >= len(cur) and all(a is b_ for a, b_ in zip(new, cur))):
+        raise RuntimeError("harness: the new list does not start with the current one")
+    if inst == "extend":
+        las.vlrs.extend(tail)
+    elif inst == "append":
+        for v in tail:
+            las.vlrs.append(v)
+    elif inst == "iadd_inplace":
+        lst = las.vlrs
+        lst += tail
+    elif inst == "insert_front":
+        head = new[:len(new) - len(cur)]
+        if not all(a is b_ for a, b_ in zip(new[len(head):], cur)):
+            raise RuntimeError("harness: the new list does not end with the current one")
+        for j, v in enumerate(head):
+            las.vlrs.insert(j, v)
+    elif inst == "slice":
+        las.vlrs[:] = new
+    elif inst == "reverse":
+        las.vlrs.reverse()
+    elif inst == "pop_eb":
+        for j in reversed(range(len(cur))):
+            if is_eb_obj(cur[j]):
+                las.vlrs.pop(j)
+    elif inst == "extract_eb":
+        las.vlrs.extract("ExtraBytesVlr")
+    elif inst == "clear":
+        las.vlrs.clear()
+    elif inst == "setter_list":
+        las.vlrs = list(new)
+    elif inst == "setter_tuple":
+        las.vlrs = tuple(new)
+    elif inst == "setter_iter":
+        las.vlrs = (v for v in new)
+    elif inst == "setter_vlrlist":
+        las.vlrs = VLRList(new)
+    elif inst == "setter_iadd":
+        las.vlrs += tail
+    elif inst == "header_setter":
+        las.header.vlrs = list(new)
+    else:
+        raise ValueError("unknown install " + inst)
+    if inst in INPLACE_INSTALLS and not (len(las.vlrs) == len(new) and all(a is b_ for a, b_ in zip(las.vlrs, new))):
+        raise RuntimeError("harness: the list methods did not produce the intended list")
 
 
 def snapshot(las):
@@ -1037,6 +1492,7 @@ def snapshot(las):
         "bytes": bytes(np.ascontiguousarray(arr).tobytes()), "npts": len(arr),
         "vlrs": [lasio.vlr_tuple(v) for v in las.vlrs], "hdr_vlrs": [lasio.vlr_tuple(v) for v in las.header.vlrs],
         "eb_class": [type(v).__name__ == "ExtraBytesVlr" for v in las.vlrs],
+        "hdr_count": int(las.header.point_count),
     }
 
 
@@ -1072,9 +1528,10 @@ def run_impl(h):
         status = "err:" + common.exc_kind(ex)
     snaps = [(status, snapshot(las), aux0)]
     witnesses = []       # every other object a step left alive: observed after each later step, written / finished at the end
+    env = new_env()      # what the caller keeps of what it passed
     for i, op in enumerate(h["ops"]):
         shares = [w["role"] not in ("reader", "writer") and bool(np.shares_memory(w["obj"].points.array, las.points.array)) for w in witnesses]
-        las, status, aux = apply_op(las, op)
+        las, status, aux = apply_op(las, op, env)
         for w, sh in zip(witnesses, shares):
             if w["role"] not in ("reader", "writer"):
                 w["snaps"].append((i, sh) + safe_snapshot(w["obj"]))
@@ -1123,7 +1580,17 @@ def op_tok(op):
     leaves the LasData of the history as it is and creates an object the model does not have: a writer)"""
     k = op["op"]
     if k == "add":
+        how = op.get("pass") or {}
+        if how.get("retain") and "_pidx" in op:
+            # the caller keeps its params objects: they are made (Y) or changed (Z: a re-used one), then passed (Q)
+            pre = [("Z!" + str(i) + "!" if how.get("reuse") else "Y!") + dim_tok(d) for i, d in zip(op["_pidx"], op["dims"])]
+            return "&".join(pre + ["Q!" + ",".join(str(i) for i in op["_pidx"])])
         return "A!" + "+".join(dim_tok(d) for d in op["dims"])
+    if k == "caller":
+        return "&".join(f"Z!{i}!{dim_tok(d)}" for i, d in op.get("_heap_after", [])) or None
+    if k == "edit_vlrs":
+        vl = "|".join(f"x{hx(u)}:{r}:x{hx(d)}:x{hx(p_)}" for (u, r, d, p_), _ in op["_edit_list"]) or "-"
+        return "V!" + ("F" if op["install"] in INPLACE_INSTALLS else "T") + "!" + vl
     if k == "remove":
         return "R!" + (",".join("x" + n for n in op["names"]) or "-")
     if k == "assign":
@@ -1141,7 +1608,10 @@ def op_tok(op):
         if how == "select":
             spec = op["index"]
             if spec["kind"] in ("slice", "mask"):
-                idx = resolve_index(spec, op["_npts"])       # positions, by Python's slice rule / the mask
+                try:
+                    idx = resolve_index(spec, op["_npts"])       # positions, by Python's slice rule / the mask
+                except IndexError:
+                    idx = [op["_npts"]]          # a mask of another length than the record (the implementation lost or gained points): refused
             else:
                 idx = [spec["i"]] if spec["kind"] == "int" else spec["idx"]
             return "F!" + ("T" if op["cont"] == "new" else "F") + "!" + common.zl(idx)
@@ -1149,6 +1619,12 @@ def op_tok(op):
             return "K"
         if how in ("reader", "reader_twice"):
             return "N:W"
+        if how == "set_count":
+            return "H!" + str(op["count"])
+        if how == "rewrap":
+            # the header of the file counts the points that were written; a copy of the header keeps the count it has
+            cnt = str(op["_npts"]) if op["route"] in ("chunk", "chunk_iter") else str(op["count"]) if op["route"] == "smaller_header" else "-"
+            return "G!" + common.zl(resolve_index(op["index"], op["_npts"])) + "!" + cnt
         return None
     return "N:W"
 
@@ -1156,11 +1632,35 @@ def op_tok(op):
 MODELLED_ROLES = ("old", "new", "shared")       # the live objects the model's world has, in order of appearance
 
 
+def caller_heap(h):
+    """the caller's params objects along the history (a pure function of the history): which object an addition passes, what each
+    object describes after the caller changed it"""
+    heap = []
+    for op in h["ops"]:
+        how = op.get("pass") or {}
+        if op["op"] == "add" and how.get("retain"):
+            if how.get("reuse") and heap:
+                op["_pidx"] = [len(heap) - 1]
+                heap[-1] = op["dims"][0]
+            elif how.get("reuse"):
+                op.pop("_pidx", None)        # nothing to re-use: an ordinary addition
+            else:
+                op["_pidx"] = list(range(len(heap), len(heap) + len(op["dims"])))
+                heap.extend(op["dims"])
+        elif op["op"] == "caller" and op["what"] in ("params_rebind", "params_inplace"):
+            heap[:] = [changed_param(d, op["what"]) for d in heap]
+            op["_heap_after"] = list(enumerate(heap))
+
+
 def observe_converted(h, snaps):
     """the standard blocks laspy.convert produced (property C12's subject) are an input of the model's Convert"""
-    for op, before in zip(h["ops"], snaps):
+    caller_heap(h)
+    for op, before, after in zip(h["ops"], snaps, snaps[1:]):
         if op["op"] == "fork":
             op["_npts"] = before[1]["npts"]
+        if op["op"] == "edit_vlrs":
+            # the list the caller made (the payload of a foreign extra-bytes VLR is what laspy put there: an input here)
+            op["_edit_list"] = after[2].get("edit_list", [])
     for op, (status, sn, _) in zip(h["ops"], snaps[1:]):
         if op["op"] == "convert":
             size = std_dtype(op["fmt"]).itemsize
@@ -1176,8 +1676,8 @@ def model_cmd(h):
     dims = init_dims_of(h)
     size = std_dtype(h["fmt"]).itemsize + sum(type_size(tuple(d["type"])) for d in dims)
     toks = [t for t in (op_tok(o) for o in h["ops"]) if t is not None]
-    return (f"hist3 {h['fmt']} " + ("+".join(dim_tok(d) for d in dims) or "-") + f" {size} x{init_raw_of(h)} {vl} "
-            + ("T" if h.get("vlr_install") == "setter" else "F") + " " + ";".join(toks))
+    return (f"hist5 {h['fmt']} " + ("+".join(dim_tok(d) for d in dims) or "-") + f" {size} x{init_raw_of(h)} {vl} "
+            + ("T" if h.get("vlr_install") == "setter" else "F") + " " + (";".join(toks) or "-") + " " + str(h.get("_count0", h["npts"])))
 
 
 def snap_tokens(status, sn, nstd):
@@ -1192,13 +1692,27 @@ def snap_tokens(status, sn, nstd):
     for d in sn["extras"]:
         n = d["name"].decode()
         fl.append(common.hexb(d["name"]) + ":" + (common.hexb(sn["fields"][n][2]) if n in sn["fields"] else "missing"))
-    return [status, "+".join(ex) or "-", common.hexb(sn["bytes"]), ",".join(fl) or "-", lasio.vlrs_tok(sn["vlrs"])]
+    return [status, "+".join(ex) or "-", common.hexb(sn["bytes"]), ",".join(fl) or "-", lasio.vlrs_tok(sn["vlrs"]), str(sn.get("hdr_count", "?"))]
 
 
 def op_label(op):
+    return op_label0(op)
+
+
+def op_label0(op):
     k = op["op"]
     if k == "convert":
         return "convert"
+    if k == "caller":
+        return "the caller changes what it passed earlier (" + op["what"] + ")"
+    if k == "edit_vlrs":
+        return "the caller edits the VLR list (" + op["flavour"] + ", " + ("in place" if op["install"] in INPLACE_INSTALLS else "through the setter") + ")"
+    if k == "fork" and op["how"] == "rewrap":
+        return "LasData(header, points) with a header that counts other points (" + op["route"] + ")"
+    if k == "fork" and op["how"] == "set_count":
+        return "header.point_count assigned"
+    if k == "add" and (op.get("pass") or {}).get("reuse"):
+        return "add with a re-used params object (" + op["pass"]["reuse"] + ")"
     if k == "reread":
         return "re-read of a file whose VLR registers " + ("nothing (no VLR)" if op["keep"] is None else "a prefix of the dimensions")
     if k == "set_points":
@@ -1209,7 +1723,7 @@ def op_label(op):
     return k + (" bad " + op["bad"] if op.get("bad") else "")
 
 
-COMPONENTS = ["outcome", "point format", "record bytes", "dimension values", "vlrs"]
+COMPONENTS = ["outcome", "point format", "record bytes", "dimension values", "vlrs", "header point count"]
 
 
 def compare(h, snaps, mline):
@@ -1342,6 +1856,8 @@ def check_state(shadow, sn, fmt, reg=None):
     # (I3)
     if sn["vlrs"] != sn["hdr_vlrs"]:
         return ("vlrs", "las.vlrs differs from las.header.vlrs")
+    if reg == "edited":
+        return None          # the caller edited the list in place: what is in it is the caller's business until the next add / remove
     ebs = [v for v, c in zip(sn["vlrs"], sn["eb_class"]) if c or (v[0] == EB_UID and v[1] == EB_RID)]
     described = shadow if reg is None else [] if reg == "absent" else shadow[:reg]
     if reg == "absent" or (reg is None and not shadow):
@@ -1349,7 +1865,8 @@ def check_state(shadow, sn, fmt, reg=None):
             return ("stale extra-bytes VLR", f"{len(ebs)} extra-bytes VLR(s) although " + ("there is no extra dimension" if not shadow else "the file had none"))
         return None
     if len(ebs) != 1:
-        return ("extra-bytes VLR count", f"{len(ebs)} extra-bytes VLRs for {len(shadow)} extra dimensions")
+        return ("extra-bytes VLR count", f"{len(ebs)} extra-bytes VLRs for {len(shadow)} extra dimensions: the list is "
+                f"{[('ExtraBytesVlr' if c else 'VLR', v[0].decode('latin-1'), v[1], len(v[3])) for v, c in zip(sn['vlrs'], sn['eb_class'])]}")
     v = ebs[0]
     if v[0] != EB_UID or v[1] != EB_RID or len(v[3]) != 192 * len(described):
         return ("extra-bytes VLR identity", f"user id {v[0]!r} record id {v[1]} payload {len(v[3])} bytes for {len(described)} dimensions")
@@ -1435,6 +1952,11 @@ VALUE_KEYS = ("extras", "names", "ftypes", "bytes", "vlrs", "npts")
 IN_PLACE = ("assign", "assign_std", "set_points")      # operations that write into the array the LasData holds
 
 
+def non_eb(sn):
+    """the VLRs that are not extra-bytes records (by class or by identity), in order"""
+    return [v for v, c in zip(sn["vlrs"], sn["eb_class"]) if not (c or (v[0] == EB_UID and v[1] == EB_RID))]
+
+
 def snap_diff(a, b, keys=SNAP_KEYS):
     return [c for c in keys if a.get(c) != b.get(c)]
 
@@ -1496,9 +2018,13 @@ def oracle(h, snaps):
             new_shadow, new_reg, new_fmt = shadow, None, op["fmt"]
         elif k == "reread":
             new_shadow, new_reg = reread_effect(shadow, reg, op["keep"])
+        elif k == "edit_vlrs":
+            new_shadow, new_reg = shadow, ("edited" if op["install"] in INPLACE_INSTALLS else None)
         else:
             new_shadow = shadow
         label = k + (" bad name " + op["bad"] if op.get("bad") else "")
+        if k in ("caller", "edit_vlrs") or (k == "add" and (op.get("pass") or {}).get("reuse")):
+            label = op_label0(op)
         if k == "set_points":
             label = "whole-record assignment (" + op["source"] + ")"
         if k == "reread":
@@ -1508,12 +2034,12 @@ def oracle(h, snaps):
         if k == "fork":
             label = {"select": "selection las[" + op.get("index", {}).get("kind", "") + "]", "copy": "copy of header and points",
                      "share_header": "LasData(las.header, ...)", "reader": "reader.read()", "reader_twice": "reader.read() twice",
-                     "writer": "laspy.open(mode='w', header=las.header)"}[op["how"]]
+                     "writer": "laspy.open(mode='w', header=las.header)", "rewrap": op_label0(op), "set_count": op_label0(op)}[op["how"]]
         if single:
             label += " on one point selected by an integer"
         labels.append(label)
         rows = None
-        if k == "fork" and op["how"] == "select":
+        if k == "fork" and op["how"] in ("select", "rewrap"):
             try:
                 rows = resolve_index(op["index"], prev["npts"])
             except IndexError:
@@ -1576,6 +2102,25 @@ def oracle(h, snaps):
                 if sn["fields"][n][2] != prev["fields"][n][2]:
                     out.append((f"{label}: other dimension changed", i, f"dimension {n!r}: {prev['fields'][n][2][:24].hex()} -> {sn['fields'][n][2][:24].hex()}"))
                     break
+            if k in ("add", "remove", "assign", "assign_std", "caller", "edit_vlrs") and status == "ok" and sn["npts"] != prev["npts"]:
+                out.append((f"{label} changed the number of points", i, f"{prev['npts']} points -> {sn['npts']}"
+                            + (f" (the header counted {prev['hdr_count']})" if prev.get("hdr_count") != prev["npts"] else "")))
+            if k in ("add", "remove") and status == "ok" and non_eb(sn) != non_eb(prev):
+                out.append((f"{label} changed the other VLRs", i, f"{[(v[0], v[1], len(v[3])) for v in non_eb(prev)]} -> {[(v[0], v[1], len(v[3])) for v in non_eb(sn)]}"))
+            if k == "caller" and status == "ok" and snap_diff(prev, sn):
+                out.append((f"{label}: the LasData changed", i, f"changed: {snap_diff(prev, sn)}; it had {describe_snap(prev)}; it now has {describe_snap(sn)}"
+                            + (f"; scales / offsets {[d['scale'] for d in prev['extras']]} -> {[d['scale'] for d in sn['extras']]}" if prev["extras"] != sn["extras"] else "")))
+            if k == "edit_vlrs" and status == "ok":
+                d_ = [c for c in snap_diff(prev, sn) if c not in ("vlrs", "hdr_vlrs")]
+                if d_:
+                    out.append((f"{label}: the LasData changed", i, f"changed: {d_}"))
+                made = aux.get("edit_list", [])
+                if op["install"] in INPLACE_INSTALLS:
+                    if sn["vlrs"] != [t for t, _ in made]:
+                        out.append((f"{label}: the list does not hold what was put in it", i, f"{len(made)} records put, {len(sn['vlrs'])} found"))
+                elif non_eb(sn) != [t for t, c in made if not (c or (t[0] == EB_UID and t[1] == EB_RID))]:
+                    out.append((f"{label}: the other VLRs of the assigned list are not kept in order", i,
+                                f"assigned {[(t[0], t[1], len(t[3])) for t, _ in made]}, found {[(v[0], v[1], len(v[3])) for v in sn['vlrs']]}"))
             if k == "add" and status == "ok":
                 for n in named:
                     if n in sn["fields"] and any(sn["fields"][n][2]):
@@ -1588,7 +2133,7 @@ def oracle(h, snaps):
                     out.append(("assignment does not read back", i, f"dimension {n!r}" + (
                         f" declared {type_str(t)}: assigned {decode_values(t, bytes.fromhex(op['raw']))}, the record holds bytes that the declared type "
                         f"reads as {decode_values(t, sn['fields'][n][2])}" if t else "")))
-            if (k == "roundtrip" or (k == "fork" and op["how"] != "select")) and status == "ok":
+            if (k == "roundtrip" or (k == "fork" and op["how"] not in ("select", "rewrap"))) and status == "ok":
                 if sn["vlrs"] != prev["vlrs"]:
                     out.append((f"{label} changed the VLRs", i, f"{[(v[0], v[1], len(v[3])) for v in prev['vlrs']]} -> {[(v[0], v[1], len(v[3])) for v in sn['vlrs']]}"))
                 if sn["bytes"] != prev["bytes"] or sn["names"] != prev["names"]:
@@ -1629,7 +2174,7 @@ def oracle(h, snaps):
             elif k == "add":
                 for d in op["dims"]:
                     assigned[bytes.fromhex(d["name"]).decode()] = bytes(type_size(tuple(d["type"])) * prev["npts"])
-            elif k in ("set_points", "reread") or (k == "fork" and op["how"] == "select" and op["cont"] == "new"):
+            elif k in ("set_points", "reread") or (k == "fork" and op["how"] in ("select", "rewrap") and op["cont"] == "new"):
                 assigned.clear()
         track.append((shadow, fmt, reg, new_shadow, new_fmt, new_reg))
         shadow, reg, fmt = new_shadow, new_reg, new_fmt
@@ -1679,6 +2224,8 @@ def oracle_witnesses(h, snaps, track, labels, witnesses):
         # what it has to be when it appears
         if role == "donor":
             exp, wsh, wfmt, wreg = None, [dict(d) for d in op["dims"]], fmt0, (reg0 if op["source"] == "reread" else None)
+        elif role == "vlr_donor":
+            exp, wsh, wfmt, wreg = None, None, fmt0, None
         elif role == "new" and op.get("how") == "select":
             exp, wsh, wfmt, wreg = None, shadow0, fmt0, reg0
         else:       # the LasData the step started from; a copy of it, a LasData made from its header, a second read; reader / writer
@@ -1691,7 +2238,9 @@ def oracle_witnesses(h, snaps, track, labels, witnesses):
                     out.append((f"{h['ops'][j]['op']} left another live LasData unusable: {what}", j, f"after {label}: observing it gives {st}"))
                     break
                 if j == b:
-                    if role == "donor":
+                    if role == "vlr_donor":
+                        bad = None
+                    elif role == "donor":
                         bad = check_state(wsh, sn, wfmt, wreg) or (("record bytes", "the record does not hold the assigned bytes") if sn["bytes"] != bytes.fromhex(op["raw"]) else None)
                     elif exp is None:      # a selection
                         rows = resolve_index(op["index"], before["npts"])
@@ -1711,7 +2260,7 @@ def oracle_witnesses(h, snaps, track, labels, witnesses):
                     if shared_mem and h["ops"][j]["op"] in IN_PLACE:
                         d = [c for c in d if c != "bytes"]
                     if d:
-                        bad = check_state(wsh, sn, wfmt, wreg)
+                        bad = check_state(wsh, sn, wfmt, wreg) if wsh is not None else None
                         out.append((f"{h['ops'][j]['op']} on one LasData changed another live LasData: {what}", j,
                                     f"after {label} these changed: {d}; it had {describe_snap(last)}; it now has {describe_snap(sn)}"
                                     + (f"; now inconsistent: {bad[0]}: {bad[1]}" if bad else "")))
@@ -1887,6 +2436,178 @@ def systematic(ctx, reserved):
         hs.append(gen_history(rng, reserved, fmt=j % 11, steps=5, npts=[2, 0, 3][j % 3], init=0, plan=[add3, bad_setp, good_setp, add1b, lambda s, c: {"op": "roundtrip"}]))
     hs.extend(systematic3(ctx, reserved))
     hs.extend(systematic4(ctx, reserved))
+    hs.extend(systematic5(ctx, reserved))
+    return hs
+
+
+def systematic5(ctx, reserved):
+    """round 5 — what belongs to the caller: (1) the objects it passed (scales / offsets in every representation, kept and written
+    afterwards; the ExtraBytesParams object kept, changed, re-used for the next addition; the lists it passed); (2) a LasData made
+    with the constructor from a header that counts other points than the record has (every route, header count bigger / smaller /
+    zero) x what is added / removed afterwards; (3) the VLR list edited between two operations (every flavour x every way of
+    installing the new list) x the add / remove that follows"""
+    rng = ctx.rng
+    hs = []
+
+    def dims_n(shadow, n, scaled=None, elems=None):
+        used = {bytes.fromhex(d["name"]).decode() for d in shadow}
+        ds = []
+        for i in range(n):
+            t = ("s", rng.choice([1, 2, 3, 4, 5, 6, 7, 8, 9, 10]) + 10 * (elems[i] - 1)) if elems else None
+            d = rand_dim(rng, used, reserved, t=t, scaled=scaled)
+            used.add(bytes.fromhex(d["name"]).decode())
+            ds.append(d)
+        return ds
+
+    def add_n(n, scaled=None, how=None, elems=None, single=None):
+        def f(shadow, cur):
+            op = {"op": "add", "dims": dims_n(shadow, n, scaled, elems), "single": (n == 1) if single is None else single}
+            if how:
+                op["pass"] = dict(how)
+            return op
+        return f
+
+    def asg(which=-1):
+        return lambda s, c: assign_op(rng, s[which % len(s)], c) if s else None
+
+    def rem(which, retain=False):
+        def f(shadow, cur):
+            if not shadow:
+                return None
+            names = [d["name"] for d in shadow] if which == "all" else [shadow[which % len(shadow)]["name"]]
+            return {"op": "remove", "names": names, "single": False, "as": "list", "retain": retain}
+        return f
+
+    def rt(via="write"):
+        return lambda s, c: {"op": "roundtrip", "via": via}
+
+    def caller(what):
+        return lambda s, c: {"op": "caller", "what": what}
+
+    def conv(shadow, cur):
+        return lambda sh, c, curfmt, curver, reg: {"op": "convert", "fmt": curfmt, "version": None}
+
+    # (1) parameters the caller keeps
+    j = 0
+    for rep in ["ndarray", "list", "tuple", "npscalars", "buffer", "strided"]:
+        for what in ("arrays", "params_rebind", "lists"):
+            for elems in ([1, 1, 1], [2, 3, 2], [3, 1, 3]):
+                j += 1
+                how = {"arrays": rep, "retain": True, "type": TYPE_REPS[j % len(TYPE_REPS)], "text": ["str", "np_str"][j % 2]}
+                plan = [add_n(2, scaled=True, how=how, elems=elems[:2]), asg(0), asg(1), caller(what), add_n(1, scaled=True, how=how, elems=elems[2:]),
+                        asg(2), rem(0, retain=True), caller(what), rt("writer" if j % 2 else "write")]
+                hs.append(gen_history(rng, reserved, fmt=j % 11, steps=len(plan), npts=[2, 1, 3][j % 3], plan=plan, init=j % 2,
+                                      build=BUILDS[j % len(BUILDS)], sibling=False))
+    for j, (sc1, sc2, el) in enumerate([(True, True, 1), (True, True, 3), (True, False, 2), (False, True, 1), (False, False, 1), (True, True, 2)]):
+        keep = {"arrays": ARRAY_REPS[j % len(ARRAY_REPS)], "retain": True}
+        plan = [add_n(1, scaled=sc1, how=keep, elems=[el]), asg(0), add_n(1, scaled=sc2, how={"reuse": "rebind", "retain": True}, elems=[el]), asg(1),
+                add_n(1, scaled=False, how={"reuse": "rebind", "retain": True}), caller("params_rebind"), rem(1), rt()]
+        hs.append(gen_history(rng, reserved, fmt=(3 * j) % 11, steps=len(plan), npts=[3, 2][j % 2], plan=plan, init=0, build=BUILDS[j % len(BUILDS)], sibling=False))
+    # the params object's own arrays written in place after the call (re-used for the next addition, or just changed)
+    for j, el in enumerate([1, 3]):
+        keep = {"arrays": "ndarray", "retain": True}
+        plan = [add_n(1, scaled=True, how=keep, elems=[el]), asg(0),
+                add_n(1, scaled=True, how={"reuse": "inplace", "retain": True}, elems=[el]), asg(1), rt()]
+        hs.append(gen_history(rng, reserved, fmt=j, steps=len(plan), npts=2, plan=plan, init=0, build=BUILDS[j], sibling=False))
+        plan = [add_n(2, scaled=True, how=keep, elems=[el, 1]), asg(0), caller("params_inplace"), add_n(1), rt()]
+        hs.append(gen_history(rng, reserved, fmt=j + 5, steps=len(plan), npts=2, plan=plan, init=0, build=BUILDS[j + 2], sibling=False))
+    # (2) a header that counts other points than the record has
+    follow = [[add_n(1)], [rem(0)], [add_n(1), asg(), rem(0), asg(0), rt()], [rem("all"), add_n(2)], [conv, add_n(1), rem(1)]]
+    routes = [("rewrap", r) for r in ("slice", "slice_copy", "chunk", "chunk_iter", "smaller_header")] + [("set_count", "assign"), ("set_count", "reset")]
+    j = 0
+    for how_, route in routes:
+        for fi, fl in enumerate(follow):
+            for counts in ((None,) if how_ == "rewrap" else ("bigger", "smaller") if route == "assign" else ("zero",)):
+                j += 1
+
+                def stale(shadow, cur, how_=how_, route=route, counts=counts):
+                    if how_ == "rewrap":
+                        return rand_rewrap(rng, cur, route=route)
+                    op = rand_set_count(rng, cur, route=route)
+                    if counts == "bigger":
+                        op["count"] = cur + rng.choice([1, 2, 6, 1000])
+                    elif counts == "smaller":
+                        op["count"] = rng.randrange(cur)
+                    return op
+
+                plan = [add_n(2), asg(0), asg(1), stale] + list(fl)
+                hs.append(gen_history(rng, reserved, fmt=j % 11, steps=len(plan), npts=[4, 5, 3, 10][j % 4], plan=plan, init=j % 2,
+                                      build=BUILDS[j % len(BUILDS)], sibling=False))
+    # the whole record with the header of a file: every chunk of a file in turn, each wrapped, extended and written (one history per chunk)
+    for j, (n, size) in enumerate([(10, 4), (10, 4), (10, 4), (6, 6), (5, 1)]):
+        start = [0, 4, 8, 0, 3][j]
+
+        def chunk(shadow, cur, size=size, start=start):
+            return {"op": "fork", "how": "rewrap", "route": "chunk_iter", "cont": "new", "chunk": size,
+                    "index": {"kind": "slice", "a": start, "b": min(cur, start + size), "step": None}}
+        plan = [add_n(1), asg(0), chunk, add_n(1), asg(1), add_n(1, elems=[3]), rem(1), rt()]
+        hs.append(gen_history(rng, reserved, fmt=[6, 1, 3, 7, 0][j], steps=len(plan), npts=n, plan=plan, init=0, build=BUILDS[j % len(BUILDS)], sibling=False))
+    # (4) an extra dimension named like a standard dimension of ANOTHER point format (not of this one): a name as any other
+    import laspy.point.dims as ldims
+    std_of = {f: set(std_dtype(f).names) | {s_.name for subs in ldims.COMPOSED_FIELDS[f].values() for s_ in subs} | set(ldims.POINT_FORMAT_DIMENSIONS[f])
+              for f in range(11)}
+    every = sorted(set().union(*std_of.values()))
+    for f in range(11):
+        foreign = [n for n in every if n not in std_of[f]]
+        for v in range(2):
+            nm = foreign[(3 * f + 5 * v) % len(foreign)]
+
+            def add_clash(shadow, cur, nm=nm, v=v):
+                used = {bytes.fromhex(d["name"]).decode() for d in shadow}
+                return {"op": "add", "dims": [rand_dim(rng, used, reserved), rand_dim(rng, used, reserved, name=nm, scaled=bool(v))], "single": False}
+            plan = [add_clash, asg(0), asg(1), rt("writer" if v else "write"), rem(0), asg(0), rt("path" if v else "write"), add_n(1), rem(0)]
+            hs.append(gen_history(rng, reserved, fmt=f, steps=len(plan), npts=[2, 3][v], plan=plan, init=0, build=BUILDS[(f + v) % len(BUILDS)], sibling=False))
+    # (5) an extra dimension named like a name laspy resolves to a standard dimension (x, y, z, the old laspy names): it keeps its
+    # values across add / remove and laspy.convert (copy_fields_from copies extra dimensions from extra dimensions)
+    for j, nm in enumerate(ALIASES):
+        def add_alias(shadow, cur, nm=nm, j=j):
+            used = {bytes.fromhex(d["name"]).decode() for d in shadow}
+            return {"op": "add", "dims": [rand_dim(rng, used, reserved, name=nm, scaled=bool(j % 2), t=("s", 1 + (7 * j) % 30)), rand_dim(rng, used, reserved)], "single": False}
+
+        def safe_std(shadow, cur):
+            return lambda sh, c, curfmt, curver, reg: {"op": "assign_std", "size": std_dtype(curfmt).itemsize, "safe": True,
+                                                       "raw": hx(bytes(rng.choice(SAFE_STD) for _ in range(std_dtype(curfmt).itemsize * c)))}
+
+        def conv_to(g):
+            return lambda shadow, cur: (lambda sh, c, curfmt, curver, reg: {"op": "convert", "fmt": g, "version": None})
+        plan = [add_alias, asg(0), asg(1), add_n(1), rem(1), safe_std, conv_to((j + 5) % 11), asg(0), rt("writer" if j % 2 else "write"), rem(0)]
+        hs.append(gen_history(rng, reserved, fmt=j % 11, steps=len(plan), npts=[2, 3, 1][j % 3], plan=plan, init=0, build=BUILDS[j % len(BUILDS)], sibling=False))
+    # (3) the VLR list edited by the caller between two operations
+    flavour_installs = {
+        "foreign_after": ["extend", "append", "iadd_inplace", "slice"] + SETTER_INSTALLS,
+        "foreign_before": ["insert_front", "slice", "setter_list", "setter_tuple", "setter_iter", "setter_vlrlist", "header_setter"],
+        "foreign_eb_only": ["extend", "append", "slice"] + SETTER_INSTALLS,
+        "two_foreign": ["extend", "iadd_inplace", "slice", "setter_list", "setter_iadd", "header_setter"],
+        "duplicate_own": ["extend", "append", "insert_front", "slice", "setter_list", "setter_vlrlist", "setter_iadd", "header_setter"],
+        "reverse": ["reverse", "slice", "setter_list", "setter_iter"],
+        "eb_first": ["slice", "setter_list", "setter_tuple"],
+        "drop_eb": ["pop_eb", "extract_eb", "slice", "setter_list", "header_setter"],
+        "users_only": ["extend", "setter_iadd"],
+        "empty": ["clear", "slice", "setter_list", "header_setter"],
+    }
+    j = 0
+    for flavour, installs in flavour_installs.items():
+        for inst in installs:
+            for start_dims in ((2, 0) if flavour in ("foreign_after", "foreign_before", "two_foreign", "empty") else (2,)):
+                j += 1
+
+                def edit(shadow, cur, flavour=flavour, inst=inst):
+                    for _ in range(20):
+                        op = rand_edit_vlrs(rng, reserved, flavour=flavour, install=inst)
+                        if flavour == "duplicate_own" and inst == "insert_front" and op["segs"][-1] != {"seg": "cur"}:
+                            continue
+                        if flavour == "duplicate_own" and inst in ("extend", "append", "setter_iadd") and op["segs"][0] != {"seg": "cur"}:
+                            continue
+                        return op
+                    return None
+
+                sync = [add_n(1), lambda s, c: {"op": "remove", "names": [s[0]["name"]], "single": True} if s else None,
+                        lambda s, c: {"op": "remove", "names": [d["name"] for d in s], "single": False, "as": "tuple"} if s else None][j % 3]
+                if not start_dims:
+                    sync = add_n(1)
+                plan = ([add_n(start_dims), asg(0)] if start_dims else []) + [edit, sync, asg(0), add_n(1), rt("writer" if j % 2 else "write")]
+                hs.append(gen_history(rng, reserved, fmt=j % 11, steps=len(plan), npts=[2, 3, 1][j % 3], plan=plan, init=0,
+                                      build=BUILDS[j % len(BUILDS)], sibling=False))
     return hs
 
 
@@ -2106,7 +2827,9 @@ def describe(h):
         o["op"] + (":" + o["bad"] if o.get("bad") else "") + (":" + o["source"] if o.get("source") else "")
         + (":other-format-" + o["mismatch"] if o.get("mismatch") else "") + (f":to-{o['fmt']}" if o["op"] == "convert" else "")
         + (f":keep-{o['keep']}" if o["op"] == "reread" else "") + (":" + o["via"] if o.get("via", "write") != "write" else "")
-        + (":" + o["how"] + (":" + o["index"]["kind"] if o["how"] == "select" else "") + ":go-on-with-" + o["cont"] if o["op"] == "fork" else "") for o in h["ops"]]
+        + (":" + o["how"] + (":" + o["index"]["kind"] if o["how"] == "select" else "") + (":" + o["route"] if o.get("route") else "") + ":go-on-with-" + o["cont"] if o["op"] == "fork" else "")
+        + (":" + o["what"] if o["op"] == "caller" else "") + (":" + o["flavour"] + ":" + o["install"] if o["op"] == "edit_vlrs" else "")
+        + (":params-" + ((o["pass"].get("reuse") and "reused-" + o["pass"]["reuse"]) or o["pass"].get("arrays", "")) if o.get("pass") else "") for o in h["ops"]]
 
 
 def correspond(ctx):
@@ -2150,7 +2873,21 @@ def correspond(ctx):
         "sibling} x 4 histories; 11 target formats x 6 kinds of dimensions (1/2/3-element scaled, unscaled, opaque, mixed) through add, "
         "assign, convert, assign, add, remove, round trip, convert again, remove; 6 cuts of the VLR (none, 0..4 descriptors) x 7 "
         "un-registered tails (1, 2, 3, 4, 3, 40, 32 bytes) x 6 follow-ups (add / remove ExtraBytes / writer round trip + add / convert / "
-        "cut again + remove / assign + no VLR + add). After the construction and after every step point format, VLR payloads, all record "
+        "cut again + remove / assign + no VLR + add). "
+        "Round 5: half of the additions say how the caller hands over its parameters (scales / offsets as list / tuple / numpy scalars / "
+        "float64 array / view of one reusable buffer / strided view; type as str / dtype / (type, count) / scalar class / '1type'; texts "
+        "as str / np.str_) and the caller keeps what it passed; 4% of the steps (after such an addition) change the kept objects (arrays "
+        "overwritten, params attributes rebound, the params object's own arrays written in place, lists reversed and extended); "
+        "20% of the additions after a kept one re-use the kept ExtraBytesParams object; 6% of the steps "
+        "edit the VLR list (10 flavours: the list / the extra-bytes VLR of another LasData after or before the own records, two foreign "
+        "ones, duplicates of the own one, reversed, extra-bytes VLR first, taken out, user records, emptied) installed by one of 9 list methods (then an add / valid remove follows) or one of "
+        "6 setter forms; 3 of 11 forks make a LasData whose header counts other points (slice / copied slice / reader chunk / "
+        "chunk_iterator chunk with a copy of the header of the whole; all points with the header of a selection) or assign / reset "
+        "header.point_count. Systematic: 6 representations x 3 caller actions x 3 element-count patterns through add 2, assign, caller, "
+        "add, assign, remove, caller, round trip; 6 re-use patterns; 7 stale-count routes (bigger / smaller / zero) x 5 follow-ups; every "
+        "chunk of a 10-point file wrapped, extended, written; 10 flavours x their installs (58) x {add, remove one, remove all}; 22 names "
+        "of standard dimensions of other formats. "
+        "After the construction and after every step point format, VLR payloads, all record "
         "bytes and the raw values of each extra dimension are compared with the model (the standard block a conversion produces is taken "
         "from the implementation: C12). non-trivial = at least one successful add or initial dimension; distinct by the "
         "canonical construction + operation list (types, lengths, scaled flags, targets, cuts, outcomes).")
@@ -2158,6 +2895,7 @@ def correspond(ctx):
     runs = []
     for h in hs:
         snaps = run_impl(h)
+        h["_count0"] = snaps[0][1]["hdr_count"]     # what the header counts at the start (a LasData(header, record) made by the constructor: 0)
         observe_converted(h, snaps)      # the standard blocks a conversion produced are an input of the model's Convert (C12 decides them)
         runs.append(snaps)
     outs = common.run_model([model_cmd(h) for h in hs], name="c13")
@@ -2169,7 +2907,8 @@ def correspond(ctx):
                  tuple((tuple(d["type"]), d["scale"] is not None) for d in init_dims_of(h)),
                  tuple((o["op"], o.get("bad"), tuple((tuple(d["type"]), d["scale"] is not None, len(d["name"]) // 2, len(d["desc"]) // 2) for d in o.get("dims", [])),
                         len(o.get("names", [])), o.get("source"), o.get("mismatch"), o.get("npts"), o.get("fmt"), o.get("keep"), o.get("via"),
-                        o.get("how"), o.get("cont"), (o.get("index") or {}).get("kind")) for o in h["ops"]),
+                        o.get("how"), o.get("cont"), (o.get("index") or {}).get("kind"), o.get("what"), o.get("flavour"), o.get("install"), o.get("route"),
+                        (o.get("pass") or {}).get("arrays"), (o.get("pass") or {}).get("reuse")) for o in h["ops"]),
                  tuple(s[0] for s in snaps))
         ctx.case(canon, nontrivial=any(o["op"] == "add" for o in h["ops"]) or bool(init_dims_of(h)),
                  sample={"format": h["fmt"], "points": h["npts"], "ops": describe(h), "outcomes": [s[0] for s in snaps[1:]]})
@@ -2181,7 +2920,15 @@ def correspond(ctx):
             ctx.count("op:" + o["op"] + (":bad-" + o["bad"] if o.get("bad") else "") + (":" + o["source"] if o.get("source") else "")
                       + (":other-format" if o.get("mismatch") else "") + (":" + o["via"] if o.get("via", "write") != "write" else "")
                       + (":no-vlr" if o["op"] == "reread" and o["keep"] is None else "")
-                      + (":" + o["how"] + (":" + o["index"]["kind"] if o["how"] == "select" else "") + ":go on with the " + o["cont"] + " one" if o["op"] == "fork" else ""))
+                      + (":" + o["how"] + (":" + o["index"]["kind"] if o["how"] == "select" else "") + (":" + o["route"] if o.get("route") else "")
+                         + ":go on with the " + o["cont"] + " one" if o["op"] == "fork" else "")
+                      + (":" + o["what"] if o["op"] == "caller" else "") + (":" + o["flavour"] if o["op"] == "edit_vlrs" else ""))
+            if o["op"] == "edit_vlrs":
+                ctx.count("vlr list installed by " + o["install"])
+            if o.get("pass"):
+                ctx.count("params passed as " + ((o["pass"].get("reuse") and "a re-used params object (" + o["pass"]["reuse"] + ")") or o["pass"].get("arrays", "ndarray")))
+            if sn[1].get("hdr_count") != sn[1]["npts"]:
+                ctx.count("state whose header counts " + ("more" if sn[1]["hdr_count"] > sn[1]["npts"] else "fewer") + " points than the record has")
             if o.get("mismatch"):
                 ctx.count("other format: " + o["mismatch"])
             if o["op"] == "convert":
